@@ -305,6 +305,10 @@ class Check:
         rdir = os.path.join(ROOT, "replays", self.pid)
         lines = []
         n = 0
+        if os.path.isdir(rdir):
+            for f in os.listdir(rdir):
+                if f.startswith(self.tier + "-"):
+                    os.remove(os.path.join(rdir, f))
 
         def save(obj):
             nonlocal n
@@ -341,6 +345,13 @@ class Check:
                              "n_disagreements": len(self.corr_broken), "seed": self.seed})
                 print("  model and implementation disagree: " + desc[:600])
                 lines.append("VIOLATION property=%s replay=%s no-failing-input-found" % (self.pid, path))
+        if not self.cov.get("rule"):
+            self.cov["rule"] = RULES.get(self.pid, "cases are generated from one PRNG seeded with VERIF_SEED plus fixed boundary cases; a case is non-trivial unless the check marks it so; distinct = distinct canonical case text (md5)")
+        if not self.assumptions:
+            self.assumptions = [t for t in self.cov.get("trusted_base", []) if t.lower().startswith(("modelled", "trusted", "hand-written", "correspondence"))] or list(self.cov.get("trusted_base", []))
+            pa = self.cov.get("print_assumptions") or {}
+            closed = all(all(x == "closed" for x in v) for v in pa.values()) if pa else None
+            self.assumptions.append("Print Assumptions of every theorem of this property: " + ("Closed under the global context (no axioms)" if closed else "see coverage.print_assumptions" if pa else "not available (proof did not check)"))
         self.cov["distinct_nontrivial"] = len(self._distinct)
         self.cov["distribution"] = self.dist
         self.cov["known_findings_reported"] = sorted(self.known_hit)
@@ -360,6 +371,23 @@ class Check:
             self.cov["discharged"], self.cov["obligations"], time.time() - self.t0,
             "VIOLATION" if lines else "ok"))
         return 1 if lines else 0
+
+
+RULES = {
+    "C01": "suite trees are generated (depth 0-4, 0-12 tests, behaviours pass/fail/skip/die/exit at chosen positions, biased to one bad test in a late or deep position) x reporters x modes, plus fixed corner scenarios; non-trivial = the tree contains at least one executed test; distinct = distinct (model case text) md5",
+    "C02": "every instrumented kill point x way of dying x position on generated trees; non-trivial = the dying test exists and the point is reached; distinct by scenario text",
+    "C03": "as C01 with skip_test()/dying at every position; the native output of every reporter is parsed and compared per test; distinct by scenario text",
+    "C04": "generated test sets run under permutations and subsets; non-trivial = at least two tests; distinct by (set, order) text",
+    "C05": "operand pairs from a boundary set (0, +-1, +-2^31(+-1), +-2^32(+-1), +-2^63) x random, all string pairs over {a,b} up to length 3 (4 thorough), planted prefixes/suffixes/needles, memory blocks with one differing byte at every offset; every probe is compared with the translated comparator and an independent oracle; non-trivial = every probe; distinct by probe text",
+    "C06": "generated histories of expect/always/never/call/mode/tally over 4 functions (lengths 0-40, 95-105 and 195-205 pending), plus every history of <= 4 ops over two functions; non-trivial = history contains at least one call; distinct by history text",
+    "C07": "as C06, stressing too few / too many calls, times(0), calls after never, declarations after always/never, three modes; distinct by history text",
+    "C08": "generated trees with suite/context fixtures x 3 modes; the event log (pid, phase, name) is compared with the model's event list; distinct by scenario text",
+    "C10": "expression texts and string operands over the alphabet {%,s,d,n,digits,backslash,quote,space,a}, integers from the C05 boundary set, every constraint kind, all texts of length <= 3 (4) over {%,s,a}; only failing checks are kept (a message is shown); distinct by probe text",
+    "C13": "generated scenarios run forked, CGREEN_NO_FORK and run_single_test; per-test credits and messages compared across modes and with the model; distinct by scenario text",
+    "C17": "C01 scenarios under all reporter configurations; counts recovered from each native format and compared pairwise; distinct by scenario text",
+    "C18": "tests with k checks for k around the channel capacity (cap-2..cap+1, 2cap, 3cap+7), overflowing test first/middle/last, both modes; distinct by scenario text",
+    "C20": "container histories: sizes 0,1,2,3,step-1,step,step+1,2step-1..2step+1,3step,5step with removals at head/middle/tail, drain-and-reuse, ping-pong at the boundary, random histories, every history of <= 3 (5) ops over a 6-letter alphabet; suite registration orders around powers of two and 100; breadcrumb depths to 400; whole runs under ASan+UBSan with counts, nesting depth 1-101 and name lengths 1-5000 under every reporter; non-trivial = every case; distinct by case text",
+}
 
 
 def _first_error(out):
